@@ -12,6 +12,7 @@ import Lemmas.ArgparseTokens
 import Lemmas.ArgparseRefine
 import Props.C17.Dispatch
 import Lemmas.ArgparseDispatchTotal
+import Lemmas.ArgparseFlag
 namespace Cnfgen.C17
 open Cnfgen.Cli Cnfgen.Cli.AP Cnfgen.Gen
 
@@ -286,5 +287,61 @@ example : dispatchNamedX "cnfgen" (fun _ => 4) "formula" "bphp" ["3", "4", "-x",
 example : dispatchNamedX "cnfgen" (fun _ => 0) "formula" "tseitin" ["first", "file.gml"] =
     .ok (.call ⟨"TseitinFormula", [.graph "simple" ["file.gml"], .none],
       [("formula_class", .param "formula_class")]⟩) := by decide +kernel
+
+/-! ### (a) flags, on the extended interpreter, for every list of tokens -/
+
+/-- every option string of a flag of a handled sub-command is read as that flag; a flag has no file type; no flag is
+under a `G.order()` of its helper -/
+theorem flag_tables_ok :
+    (cliSpecs.filter (·.supportedX)).all (fun s => (s.opts.filter isFlag).all (fun o =>
+      !isFileType o.ty && notUnderOrder s o.dest &&
+      o.flags.all (fun f => f != "--" && classifyTok (mainSpec s).strings f == .opt (.opt o) f none))) = true := by
+  decide +kernel
+
+/-- T-C17.5a‴ A FLAG IN FRONT OF ANY LIST OF TOKENS.  For every sub-command of the fragment's scope, every flag `o` of
+it outside the mutually exclusive groups, every token `f` that the parser reads as `o` (each of its option strings —
+`flag_tables_ok` —, each unique prefix — `unique_prefixes_accepted`), and EVERY list of tokens `argv` (not only the
+fragment: abbreviations, `=`, clusters, `--`, unknown options, `-h`): the parser's answer on `f :: argv` is its answer
+on `argv` with the binding of `o` added under the others — same bindings otherwise, same CLIError, same help exit. -/
+theorem flag_in_front_parses_alike (s : CliSpec) (hs : s ∈ cliSpecs) (hsup : s.supported = true) (o : OptSpec)
+    (ho : o ∈ s.opts) (hfl : isFlag o = true) (hg : o.group = "") (f : String) (hf : f ≠ "--")
+    (hc : classifyTok (mainSpec s).strings f = .opt (.opt o) f none) (argv : List String) :
+    parseX s (f :: argv) = mapOk (fun ns => ns ++ [(o.dest, o.flagVal)]) (parseX s argv) := by
+  have hwf : specWF s = true :=
+    (List.all_eq_true.1 handled_specs_wellformed) s (List.mem_filter.2 ⟨hs, hsup⟩)
+  have hsx : s.supportedX = true := by unfold CliSpec.supportedX; simp [hsup]
+  have ht := (List.all_eq_true.1 ((List.all_eq_true.1 flag_tables_ok) s (List.mem_filter.2 ⟨hs, hsx⟩))) o
+    (List.mem_filter.2 ⟨ho, hfl⟩)
+  simp only [Bool.and_eq_true, Bool.not_eq_true'] at ht
+  exact parseX_flag_cons s o f argv hwf ho hfl hg ht.1.1 hf hc
+
+/-- T-C17.5a′ (extended) NON-INTERFERENCE OF FLAGS ON EVERY LIST OF TOKENS.  … and when no guard tests `o`: the run on
+`f :: argv` fails as the run on `argv` does, or the helper takes the same path — the same template (`G.order()` of file
+graphs replaced by the same numbers), hence the same generator and argument expressions — in a namespace where every
+expression that does not mention `o.dest` has the same value.  (Exactly one argument of every call mentions `o.dest`:
+`every_flag_reaches_exactly_one_argument`.)  The flags of a mutually exclusive group (`op --total --smart --knuth…`) are
+covered on the fragment by `flag_noninterference`. -/
+theorem flag_noninterference_x (ord : List String → Nat) (s : CliSpec) (hs : s ∈ cliSpecs)
+    (hsup : s.supported = true) (o : OptSpec) (ho : o ∈ s.opts) (hfl : isFlag o = true) (hg : o.group = "")
+    (f : String) (hf : f ≠ "--") (hc : classifyTok (mainSpec s).strings f = .opt (.opt o) f none)
+    (hng : (guardDeps s).contains o.dest = false) (argv : List String) :
+    match dispatchTemplateX ord s argv with
+    | .error e => dispatchTemplateX ord s (f :: argv) = .error e
+    | .ok (t, ns) =>
+      ∃ ns', dispatchTemplateX ord s (f :: argv) = .ok (t, ns') ∧
+        ∀ e : Expr, o.dest ∉ e.deps → evalE ns' e = evalE ns e := by
+  have hwf : specWF s = true :=
+    (List.all_eq_true.1 handled_specs_wellformed) s (List.mem_filter.2 ⟨hs, hsup⟩)
+  have hsx : s.supportedX = true := by unfold CliSpec.supportedX; simp [hsup]
+  have ht := (List.all_eq_true.1 ((List.all_eq_true.1 flag_tables_ok) s (List.mem_filter.2 ⟨hs, hsx⟩))) o
+    (List.mem_filter.2 ⟨ho, hfl⟩)
+  simp only [Bool.and_eq_true, Bool.not_eq_true'] at ht
+  exact flagX_noninterference_lemma ord s o f argv hwf ho hfl hg ht.1.1 hf hc hng ht.1.2
+
+/-- ungrouped argument flags exist, also in the sub-commands outside `dispatch_total_all_tokens` (`op --plant`,
+`subsetcard --equal`, `php --functional --onto`) -/
+example : (cliSpecs.filter (fun s => s.supported && s.opts.any (fun o => isFlag o && o.group == "" &&
+    !(guardDeps s).contains o.dest))).map (·.name) =
+    ["domset", "kclique", "op", "php", "subsetcard", "shuffle"] := by decide +kernel
 
 end Cnfgen.C17
